@@ -1,3 +1,5 @@
 pub mod mock;
+pub mod direct;
 pub mod ps;
+pub mod rr;
 pub mod props;
